@@ -13,6 +13,7 @@ import (
 	kemtypes "github.com/flant/shell-operator/pkg/kube_events_manager/types"
 	"github.com/flant/shell-operator/pkg/metric"
 	utils "github.com/flant/shell-operator/pkg/utils/labels"
+	"github.com/flant/shell-operator/pkg/utils/verifsched"
 )
 
 type Monitor interface {
@@ -212,6 +213,7 @@ func (m *monitor) CreateInformers() error {
 						log.Err(err))
 				}
 				m.VaryingInformers.Store(nsName, varyingInformers)
+				verifsched.Point("monitor.ns.stored", m.Config.Metadata.DebugName)
 
 				ctx, cancelForNs := context.WithCancel(m.ctx)
 				m.cancelForNs.Store(nsName, cancelForNs)
@@ -223,6 +225,7 @@ func (m *monitor) CreateInformers() error {
 					}
 					informer.start()
 				}
+				verifsched.Point("monitor.ns.started", m.Config.Metadata.DebugName)
 			},
 			func(nsName string) {
 				// Delete event: check, stop and remove informers for Ns
@@ -295,15 +298,18 @@ func (m *monitor) Snapshot() []kemtypes.ObjectAndFilterResult {
 // EnableKubeEventCb allows execution of event callback for all informers.
 // Also executes eventCb for events accumulated during "Synchronization" phase.
 func (m *monitor) EnableKubeEventCb() {
+	verifsched.Point("monitor.enable.start", m.Config.Metadata.DebugName)
 	for _, informer := range m.ResourceInformers {
 		informer.enableKubeEventCb()
 	}
+	verifsched.Point("monitor.enable.staticsDone", m.Config.Metadata.DebugName)
 	// Execute eventCb for events accumulated during "Synchronization" phase.
 	m.VaryingInformers.RangeValue(func(value []*resourceInformer) {
 		for _, informer := range value {
 			informer.enableKubeEventCb()
 		}
 	})
+	verifsched.Point("monitor.enable.rangeDone", m.Config.Metadata.DebugName)
 	// Enable events for future VaryingInformers.
 	m.eventsEnabled = true
 }
